@@ -155,7 +155,7 @@ def replay(w):
         for x, y in zip(ra, rb):
             if x != y:
                 return True, '%s: call %s has key %s in the session with PYTHONHASHSEED=%d but %s in the one with %d (the sessions differ in their history: one saw a key build fail)' % (
-                    list(a)[0], x[0], x[1][:120], w['seeds'][0], y[1][:120], w['seeds'][1])
+                    list(a)[0], x[0], x[1][:100] + x[1][-45:], w['seeds'][0], y[1][:100] + y[1][-45:], w['seeds'][1])
         return False, 'keys agree in both sessions'
     idx = w['group'][0]
     a = _digests(w['mode'], idx, idx + 1, w['seeds'][0], detail=w['group'])
